@@ -541,6 +541,41 @@ def r7(ctx, prog):
                (name, [c.get('fn') for c in sorted(inloop, key=lambda c: (c['l'], c['i']))], q.expr_text(f, pre[0]['args'][1]) if pre else '?', _loop_domain(f, 'i'), skip_fn, skip_i, skip_ok), where=f.loc(lp[0]['i']))
 
 
+def r8(ctx, prog):
+    ctx.rule('C19.R8', 'A10 width agreement in MD5::update (the digest must not depend on how the message is split): the 64-bit bit count kept in two 32-bit words is '
+             'advanced with a carry test whose operands are truncated to the word\'s width, and the block loop\'s counter is as wide as the length it is compared with', floor=2)
+    f = prog.fn1('tbox::crypto::MD5::update')
+    from tbxlint.ival import type_range, ctype
+    U32 = 2**32 - 1
+    # carry idiom: count_[0] += A ... if (count_[0] < B)
+    cmps = [st for st in f.stmts if st and st['k'] == 'BinaryOperator' and st.get('op') in ('<', '>') and 'count_[0]' in (q.expr_text(f, st['ch'][0]), q.expr_text(f, st['ch'][1]))]
+    adds = [st for st in f.stmts if st and st['k'] == 'CompoundAssignOperator' and st.get('op') == '+=' and q.expr_text(f, st['ch'][0]) == 'count_[0]']
+    if not cmps or not adds:
+        raise AnalysisBroken('MD5::update: bit-count carry idiom (count_[0] += n; if (count_[0] < n)) not found')
+    for st in cmps:
+        other = st['ch'][1] if q.expr_text(f, st['ch'][0]) == 'count_[0]' else st['ch'][0]
+        iv = ival.interval(f, other, f.cfg.point_of(st['i']))
+        ok = iv is not None and iv[1] <= U32
+        ctx.ob('C19.R8', 'MD5::update|carry-test', ok, 'the carry test compares count_[0] with a 32-bit quantity' if ok else
+               'the carry test compares the 32-bit word count_[0] with %s, which can be as large as %s: for a single update of >= 512 MiB it is true although no carry occurred, '
+               'count_[1] is bumped and the digest differs from the one obtained with the same bytes in smaller updates' % (q.expr_text(f, other), iv[1] if iv else 'unbounded'), where=f.loc(st['i']))
+    # block loop counter vs length
+    for lp in [x for x in f.stmts if x and x['k'] == 'ForStmt' and x.get('cond') is not None]:
+        cs = f.s(f.strip_casts(lp['cond']))
+        if not cs or cs['k'] != 'BinaryOperator' or cs.get('op') not in ('<', '<='):
+            continue
+        lhs_vars = [f.stmts[x] for x in f.walk(cs['ch'][0]) if f.stmts[x]['k'] == 'DeclRefExpr' and f.stmts[x].get('dk') == 'Var']
+        rhs = f.s(f.strip_casts(cs['ch'][1]))
+        if not lhs_vars or rhs is None:
+            continue
+        ltr = type_range(ctype(f.s(f.strip_casts(cs['ch'][0]))) or ctype(lhs_vars[0]))     # type in which the left side is computed (before it is widened for the comparison)
+        rtr = ival.interval(f, cs['ch'][1], f.cfg.point_of(lp['cond']))
+        ok = ltr is not None and rtr is not None and ltr[1] >= rtr[1]
+        ctx.ob('C19.R8', 'MD5::update|block-loop-width', ok, 'the block loop compares in a type that holds the length' if ok else
+               'the block loop computes %s in a type of maximum %s but compares it with %s (up to %s): for lengths >= 4 GiB the counter wraps and the loop never ends / reads out of bounds'
+               % (q.expr_text(f, cs['ch'][0]), ltr[1] if ltr else '?', q.expr_text(f, cs['ch'][1]), rtr[1] if rtr else '?'), where=f.loc(lp['i']))
+
+
 def _cmp_eval(f, cond, i):
     cs = f.s(f.strip_casts(cond))
     a, b = q.eval_int(f, cs['ch'][0], {'i': i}), q.eval_int(f, cs['ch'][1], {'i': i})
@@ -558,4 +593,5 @@ def run(ctx):
     ctx.guard(r5, ctx, prog)
     ctx.guard(r6, ctx, prog)
     ctx.guard(r7, ctx, prog)
+    ctx.guard(r8, ctx, prog)
     return prog
